@@ -39,6 +39,37 @@ pub struct Case {
     pub pay: Pay,
     pub a: Where,
     pub b: Where,
+    /// self-IP list mode: 0 = none; 1 = exactly the server addresses of both contexts; 2 / 3 = the
+    /// same plus further IPv4 / IPv6 addresses (lists of unequal size per family)
+    #[serde(default)]
+    pub self_list: u8,
+}
+
+fn cfg_for(c: &Case) -> Cfg {
+    let mut cfg = Cfg::plain(c.mac);
+    cfg.key = c.key;
+    if c.self_list != 0 {
+        let mut l: Vec<IpAddr> = Vec::new();
+        for w in [&c.a, &c.b] {
+            l.push(IpAddr::V4(Ipv4Addr::from(w.s4)));
+            l.push(IpAddr::V6(Ipv6Addr::from(w.s6)));
+        }
+        match c.self_list {
+            2 => {
+                l.push(IpAddr::V4(Ipv4Addr::new(192, 0, 2, 200)));
+                l.push(IpAddr::V4(Ipv4Addr::new(192, 0, 2, 201)));
+            }
+            3 => {
+                l.push(IpAddr::V6(Ipv6Addr::new(0x2001, 0xdb8, 0xffff, 0, 0, 0, 0, 1)));
+                l.push(IpAddr::V6(Ipv6Addr::new(0x2001, 0xdb8, 0xffff, 0, 0, 0, 0, 2)));
+            }
+            _ => {}
+        }
+        l.sort();
+        l.dedup();
+        cfg.self_ips = Some(l);
+    }
+    cfg
 }
 
 fn wh() -> impl Strategy<Value = Where> {
@@ -53,7 +84,22 @@ pub fn case_strategy() -> impl Strategy<Value = Case> {
         1 => hostile_stun().prop_map(Pay::Stun),
         1 => vec(any::<u8>(), 0..64).prop_map(|v| Pay::Bytes(Hex(v))),
     ];
-    (mac_unicast(), mac_unicast(), any::<[u64; 2]>(), any::<bool>(), pay, wh(), wh(), 0u8..3).prop_map(|(mac, cmac, key, tcp, pay, a, mut b, same)| {
+    (mac_unicast(), mac_unicast(), any::<[u64; 2]>(), any::<bool>(), pay, wh(), wh(), 0u8..3, (prop_oneof![3 => Just(0u8), 1 => 1u8..4], 0u8..20)).prop_map(|(mac, cmac, key, tcp, pay, mut a, mut b, same, (self_list, eq))| {
+        // field-equals-field classes: source port = destination port, client address = server address
+        match eq {
+            0 => b.sport = b.dport,
+            1 => a.sport = a.dport,
+            2 => {
+                b.c4 = b.s4;
+                b.c6 = b.s6;
+                b.sport = b.dport;
+            }
+            3 => {
+                b.c4 = b.s4;
+                b.c6 = b.s6;
+            }
+            _ => {}
+        }
         // a third of the cases vary the ports only, a third the IP version/addresses only
         match same {
             0 => {
@@ -70,7 +116,7 @@ pub fn case_strategy() -> impl Strategy<Value = Case> {
             }
             _ => {}
         }
-        Case { mac, cmac, key, tcp, pay, a, b }
+        Case { mac, cmac, key, tcp, pay, a, b, self_list }
     })
 }
 
@@ -217,9 +263,11 @@ fn masked(who: Responder, a: &[u8], tcp: bool) -> Result<Vec<u8>, String> {
 
 pub fn check(c: &Case, st: &mut Stats) -> Check {
     st.eval();
-    let mut cfg = Cfg::plain(c.mac);
-    cfg.key = c.key;
+    let cfg = cfg_for(c);
     let sut = Sut::new(&cfg);
+    if c.self_list != 0 {
+        st.class(&format!("self-ip-list-mode-{}", c.self_list));
+    }
     let payload = c.pay.bytes(c.tcp);
     st.frames(if c.tcp { 4 } else { 2 });
     let ra = ask(&sut, c, &c.a, &payload)?;
@@ -310,7 +358,7 @@ fn sweep_ask(sut: &Sut, c: &Case, w: &Where, payload: &[u8]) -> Result<Option<(R
 pub fn sweep_check(s: &Sweep, st: &mut Stats, reference: &mut Option<Option<(Responder, Vec<u8>, u16)>>) -> Check {
     let g = goldens();
     let (name, req) = &g[s.golden % g.len()];
-    let c = Case { mac: [0x02, 0x42, 0xac, 0x11, 0x00, 0x02], cmac: [2, 0, 0, 0, 0, 9], key: [11, 22], tcp: s.tcp, pay: Pay::App(req.clone()), a: sweep_where(s, true), b: sweep_where(s, false) };
+    let c = Case { mac: [0x02, 0x42, 0xac, 0x11, 0x00, 0x02], cmac: [2, 0, 0, 0, 0, 9], key: [11, 22], tcp: s.tcp, pay: Pay::App(req.clone()), a: sweep_where(s, true), b: sweep_where(s, false), self_list: 0 };
     let mut cfg = Cfg::plain(c.mac);
     cfg.key = c.key;
     let sut = Sut::new(&cfg);
@@ -342,7 +390,7 @@ impl Prop for C19 {
         "C19"
     }
     fn rule(&self) -> &'static str {
-        "metamorphic: one application payload (request of every protocol generator, byte-mutated requests, hostile STUN TLV lists, random bytes) sent with the transport held fixed (UDP datagram, or first segment of a handshaken TCP flow) in two contexts that differ in source/destination ports only (incl. 0, 53, 80, 111, 445, 3478, 65535), in IP version and addresses only, or in both. Oracle: answered in both contexts or in neither; same responder (independent classifier); reply source port at the same offset from the destination port; application replies equal after structural masking of exactly the listed exceptions — STUN MAPPED-ADDRESS value, successful portmapper bodies (GETPORT / GETADDR: the port / universal address; DUMP: parsed entry by entry, only port / address masked and netids reduced to their transport), DNS A RDATA and its length, HTTP Date and SMB times. Non-trivial = answered in both contexts; distinct by hash of (payload, contexts)."
+        "metamorphic: one application payload (request of every protocol generator, byte-mutated requests, hostile STUN TLV lists, random bytes) sent with the transport held fixed (UDP datagram, or first segment of a handshaken TCP flow) in two contexts that differ in source/destination ports only (incl. 0, 53, 80, 111, 445, 3478, 65535), in IP version and addresses only, or in both; with no self-IP list or one that holds the contexts' server addresses (optionally more addresses of one family than of the other); a share of the contexts has source port = destination port and / or client address = server address. Oracle: answered in both contexts or in neither; same responder (independent classifier); reply source port at the same offset from the destination port; application replies equal after structural masking of exactly the listed exceptions — STUN MAPPED-ADDRESS value, successful portmapper bodies (GETPORT / GETADDR: the port / universal address; DUMP: parsed entry by entry, only port / address masked and netids reduced to their transport), DNS A RDATA and its length, HTTP Date and SMB times. Non-trivial = answered in both contexts; distinct by hash of (payload, contexts)."
     }
     fn run(&self, ctx: &mut RunCtx) {
         let n = ctx.share(ctx.tier.n(600_000, 8_000_000));
@@ -391,7 +439,7 @@ impl Prop for C19 {
                         let w4 = Where { v4: true, c4: [198, 51, 100, 7], s4: [203, 0, 113, 9], c6: [0x20, 1, 0xd, 0xb8, 0, 1, 0, 0, 0, 0, 0, 0, 0, 0, 0, 7], s6: [0x20, 1, 0xd, 0xb8, 0, 2, 0, 0, 0, 0, 0, 0, 0, 0, 0, 9], sport: 40000, dport: 111 };
                         let mut w6 = w4.clone();
                         w6.v4 = false;
-                        let c = Case { mac: [0x02, 0x42, 0xac, 0x11, 0x00, 0x02], cmac: [2, 0, 0, 0, 0, 9], key: [11, 22], tcp, pay: Pay::App(AppReq::Rpc(call)), a: w4, b: w6 };
+                        let c = Case { mac: [0x02, 0x42, 0xac, 0x11, 0x00, 0x02], cmac: [2, 0, 0, 0, 0, 9], key: [11, 22], tcp, pay: Pay::App(AppReq::Rpc(call)), a: w4, b: w6, self_list: 0 };
                         let r = check(&c, ctx.st);
                         ctx.run_one("where", &c, r);
                     }
